@@ -705,8 +705,16 @@ def find_distributed_partition(
     """
     from mpi4py import MPI
 
-    from pytato.transform import SubsetDependencyMapper
+    from pytato.transform import SubsetDependencyMapper as _SubsetDependencyMapper
     from pytato.transform.dead_code_elimination import eliminate_dead_code
+
+    class SubsetDependencyMapper(_SubsetDependencyMapper):
+        # The value of a send holder is its pass-through data. What the holder
+        # sends is a dependency of that send, not of the arrays that contain
+        # the holder (this is also how _LocalSendRecvDepGatherer sees it).
+        def map_distributed_send_ref_holder(
+                self, expr: DistributedSendRefHolder) -> frozenset[Array]:
+            return self.combine(frozenset([expr]), self.rec(expr.passthrough_data))
 
     # Eliminate dead-code to prevent from unnecessary communication arising
     # from the unused sub-expressions.
